@@ -6,12 +6,16 @@ from lib import gen
 from props import c04
 
 LEVEL = "proof"
-CHECKER = "lake build KalignModel.Props.C05 && lake env lean KalignModel/Audit/C05.lean"
+CHECKER = "lake build KalignModel.Props.C05All && lake env lean KalignModel/Audit/C05.lean"
 
 
 def theorems():
-    p = os.path.join(C.LEAN, "KalignModel", "Props", "C05.theorems")
-    return [l.strip() for l in open(p) if l.strip() and not l.startswith("#")] if os.path.exists(p) else []
+    out = []
+    for f in ("C05.theorems", "C05Pipeline.theorems"):
+        p = os.path.join(C.LEAN, "KalignModel", "Props", f)
+        if os.path.exists(p):
+            out += [l.strip() for l in open(p) if l.strip() and not l.startswith("#")]
+    return out
 
 
 def base_file(rng):
@@ -72,6 +76,16 @@ def mutate(rng, data):
 
 
 def check_output(txt, fmt):
+    # block formats: a name containing blanks (possible: FASTA headers are taken whole) cannot be told from the residues by the independent
+    # parser -- such outputs are not judged here (the name may come from ANY of the input files, so the mutation tags do not tell)
+    if fmt.startswith("msf"):
+        for m in re.finditer(r"^ Name: (.*?)\s+Len:\s+\d+\s+Check:", txt, re.M):
+            if re.search(r"\s", m.group(1).strip()) or not m.group(1).strip():
+                return "skip"
+    elif fmt.startswith("clu"):
+        for ln in txt.splitlines()[1:]:
+            if ln.strip() and len(ln.split()) != 2:
+                return "skip"
     try:
         if fmt.startswith("fa"):
             rows = gen.parse_fasta(txt)
@@ -105,13 +119,24 @@ def run(ctx):
                         "Len: before Name:, >512 rows, degenerate files, CRLF, tabs, empty records) crossed with option strings and unreadable/unwritable paths, 20 s timeout; "
                         "non-trivial = distinct (mutation kinds, option kind, outcome) triples")
     thms = theorems()
-    ok = C.lean_obligations(ctx, "C05", thms) if thms else False
+    ok = C.lean_obligations(ctx, "C05", thms, module="C05All") if thms else False
     if not thms:
         ctx.obligations.append(dict(name="Props/C05 theorems", ok=False, why="theorem list missing"))
     kvh = C.build_harness("asan")
     cli = C.build_cli("asan")
     rng = ctx.rng
     diffs = C.unit_correspondence(ctx, kvh, C.gen_ops("gen_io.py", ctx.seed + 500, 1 if ctx.quick else 10, prefixes=("read", "read_as", "detect_format")), "readers(malformed)")
+    # whole pipeline with extreme admitted / rejected penalties (0, -0.0, subnormals, 1e6, just above, NaN, +-inf) and the k-means path: the model's
+    # explicit fault values (`fault:`) must never appear and the real code must agree under ASan/UBSan
+    xp = os.path.join(C.CORPUS, "sliceV_extreme_params.ops")
+    if os.path.exists(xp):
+        xl = [l.strip() for l in open(xp) if l.strip()]
+        if ctx.quick:
+            xl = xl[ctx.seed % 4::4]
+        d2 = C.correspond(kvh, xl, chunks=C.NCPU, timeout=1800)
+        ctx.count("unit_ops_pipeline_extreme_params", len(xl))
+        ctx.evaluations += len(xl)
+        diffs += d2
     sc = C.scratch()
     jobs = []
     N = 400 if ctx.quick else 6000
@@ -227,7 +252,9 @@ def run(ctx):
             ctx.count("mut_" + t)
         ctx.nontriv((j["tag"], j["otag"], outcome))
         if why:
-            fails.append((why + " [%s / %s]" % (j["tag"], j["otag"]), dict(args=j["args"], input_hex=open(j["inp"], "rb").read()[:20000].hex(), rc=j["rc"], stderr=j["err"][-2500:])))
+            fails.append((why + " [%s / %s]" % (j["tag"], j["otag"]), dict(args=j["args"], input_hex=open(j["inp"], "rb").read()[:200000].hex(),
+                                                                          more_inputs_hex={a: open(a, "rb").read()[:200000].hex() for a in j["args"] if a != j["inp"] and a.startswith(sc) and os.path.isfile(a) and a != j.get("out")},
+                                                                          output=(j.get("outtxt") or "")[:20000], rc=j["rc"], stderr=j["err"][-2500:])))
         if len(ctx.samples) < 4 and j["tag"] != "valid":
             ctx.sample(dict(mutation=j["tag"], options=j["otag"], rc=j["rc"], input_head=open(j["inp"], "rb").read()[:120].decode(errors="replace")))
     # thorough: valgrind memcheck on a subset (uninitialised reads are invisible to ASan)
